@@ -54,6 +54,40 @@ def check(ctx):
         w = [n for b in ctx.prog.family(ew) for n in V.W_REACHING(b)]
         ctx.check(not w, inst, "FORBID", ew.path, "dropping expired winners performs no device write itself (it only queues extents)", None)
     check_winner(ctx, "C04.winner")
+    check_repairs(ctx, "C04.repairs")
+
+
+def check_repairs(ctx, inst):
+    """what recovery may queue for retirement: only extents whose deadness was established in this scan"""
+    scan = ctx.fn("FeoxStore::scan_and_rebuild_indexes", inst)
+    if scan is None:
+        return
+    pushes = R.call("Vec::push").filter(lambda b, n: "retired_extents" in origin_names(b, R.recv_expr(b, n)) | names_of(b, R.recv_expr(b, n)), "onto retired_extents")(scan)
+    ctx.check(len(pushes) == 3, inst, "anchor", scan.path, "retired_extents has three feeders in the scan (incomplete marker, scanned loser, replaced generation); found %d" % len(pushes), None)
+    mt = R.call("format::retirement_marker_token")(scan)
+    tok = R.call("recovery::record_token")(scan)
+    ro_false = A.pred_edges(scan, lambda e: e.has_field("FeoxStore", "read_only"), "false")
+    for p in pushes:
+        R.guard(ctx, inst, scan, [p], ro_false, "repairs are queued only on a writable open")
+        t = R.arg_expr(scan, scan.nodes[p], 1)
+        if t.k == "agg" and len(t.a) == 2 and t.a[1].has_call("from_le_bytes") and not t.a[1].has_call("RecordFormat::total_size"):
+            # incomplete retirement marker: (sector, remaining parsed from the marker) after its token verified
+            def mt_cmp(e):
+                return e.k == "bin" and e.extra == "Eq" and any(c.nid in mt for c in e.calls())
+            R.guard(ctx, inst, scan, [p], A.pred_edges(scan, mt_cmp, "true"), "an incomplete retirement is completed only for a marker whose token verified")
+            def needs(e):
+                return e.k == "local" and scan.local_ty(e.extra) == "bool" and len(scan.defs.get(e.extra, [])) >= 2
+            ctx.check("sector" in names_of(scan, t.a[0]), inst, "PROVENANCE", scan.path, "the marker's extent starts at the scanned sector", scan.where(p))
+        else:
+            # record extents: only after the record's token verified on v3 (C03.recover) — dominated by the loser test
+            isa = R.call("Option::is_some_and").filter(lambda b, n: R.recv_expr(b, n).has_call("HashMap::read"), "loser test")(scan)
+            R.dom(ctx, inst, scan, isa, [p], "a record extent is queued only after the winner/loser decision", a_desc="loser test")
+    # the extents handed to the journalled retirement are exactly that list (no other source)
+    rt = R.call("DiskIO::retire_extents")(scan)
+    for r in rt:
+        e = R.arg_expr(scan, scan.nodes[r], 1)
+        nm = origin_names(scan, e) | names_of(scan, e)
+        ctx.check("retired_extents" in nm, inst, "PROVENANCE", scan.path, "retire_extents receives retired_extents", scan.where(r))
 
 
 def check_winner(ctx, inst):
